@@ -207,14 +207,21 @@ class SolverWrapper:
                     vals = np.array(self._pending_fix_vals, dtype=np.float64)
                     self.solver.changeColsBounds(len(idxs), idxs, vals, vals)
                 if self._pending_lb_vars:
-                    idxs = np.array([v.index for v in self._pending_lb_vars], dtype=np.int32)
-                    lbs  = np.array(self._pending_lb_vals, dtype=np.float64)
+                    # HiGHS reads columns by set only for strictly increasing indices (otherwise it returns an error and
+                    # zero-filled arrays): sort the queued columns and keep the largest lower bound queued for each
+                    lb_by_index = {}
+                    for v, lb in zip(self._pending_lb_vars, self._pending_lb_vals):
+                        lb_by_index[v.index] = max(lb, lb_by_index.get(v.index, lb))
+                    idxs = np.array(sorted(lb_by_index), dtype=np.int32)
+                    lbs  = np.array([lb_by_index[i] for i in idxs], dtype=np.float64)
                     # Prefer dedicated lower bound update if available, else fall back to bounds change with UB unchanged
                     if hasattr(self.solver, "changeColsLower"):
                         self.solver.changeColsLower(len(idxs), idxs, lbs)
                     else:
                         # As a conservative fallback, raise LB via changeColsBounds using current UBs fetched via getCols
                         status, nret, costs, lowers, uppers, nnz = self.solver.getCols(len(idxs), idxs)
+                        if nret != len(idxs):
+                            raise RuntimeError(f"HiGHS getCols returned {nret} of {len(idxs)} columns (status {status}); cannot update lower bounds.")
                         # Use returned uppers in the same order as idxs
                         current_ubs = uppers.astype(np.float64, copy=False)
                         self.solver.changeColsBounds(len(idxs), idxs, lbs, current_ubs)
